@@ -44,6 +44,8 @@ func (r *rng) cmpVariant(d *apd.Decimal) *apd.Decimal {
 		k := r.rangeI(1, 6)
 		if r.coin(25) {
 			k = r.rangeI(100, 400)
+		} else if r.coin(30) {
+			k = r.rangeI(15, 22) // 64-bit word boundary
 		}
 		v.Coeff.Mul(&v.Coeff, new(apd.BigInt).SetMathBigInt(pow10(k)))
 		v.Exponent -= int32(k)
